@@ -109,6 +109,10 @@ fn row_alphabet() -> Vec<Row> {
     ]
 }
 
+pub fn awards_json_pub() -> String {
+    awards_json()
+}
+
 fn awards_json() -> String {
     // vest on d2 for X (deposit row is dated d2)
     json!({"Transactions": [
